@@ -29,6 +29,10 @@ pub enum Ev {
     /// tee / manifest readers do this) or on a freshly spawned thread that is joined before read() returns (two calls
     /// overlapping in time: process-wide scratch state is contended at a point the reader controls).  Then delivers like Deliver(k).
     Nested { other_thread: bool, k: u32 },
+    /// the reader itself panics (unwinds through the helper): a caller-side crash in the middle of a call.  Nothing is
+    /// judged about that call except that it unwinds; what is judged is the *next* calls (same thread and another
+    /// thread): whatever process-wide or per-thread state the helper holds across `read()` must not stay poisoned.
+    Panic,
     /// contract violation (C17 only): report n + extra bytes although at most buf.len() can be written.
     /// 0: buf.len()+1, 1: buf.len()+1_000_000, 2: usize::MAX, 3: honest count but nothing written (legal)
     Lie(u8),
@@ -103,6 +107,7 @@ pub struct SimReader<'a> {
     pub nested_calls: u64,
     /// a nested call returned something else than hash_buf of its own stream
     pub nested_wrong: Option<String>,
+    pub panicked: bool,
 }
 
 impl<'a> SimReader<'a> {
@@ -134,6 +139,7 @@ impl<'a> SimReader<'a> {
             post_eof_calls: 0,
             nested_calls: 0,
             nested_wrong: None,
+            panicked: false,
         }
     }
     fn deliver(&mut self, buf: &mut [u8], k: usize) -> usize {
@@ -204,6 +210,10 @@ impl SimReader<'_> {
                     self.nested_wrong.get_or_insert(e);
                 }
                 Ok(self.deliver(buf, k.max(1) as usize))
+            }
+            Ev::Panic => {
+                self.panicked = true;
+                panic!("SIM-READER-PANIC: the reader crashed in read call {}", self.calls);
             }
             Ev::Eintr => {
                 self.fired_eintr += 1;
@@ -350,6 +360,24 @@ impl C12 {
         let delivered = &data[..rd.pos];
         // --- bookkeeping: what fired ---
         st.hit("runs");
+        if rd.panicked {
+            // crash of the caller's reader in mid-call: the next calls must work (no poisoned lock, no scratch left borrowed)
+            st.hit("fault.reader_panic_unwinds_through_call");
+            let same = guarded(nested_call).unwrap_or_else(|p| Err(format!("panicked: {p}")));
+            let other = std::thread::scope(|s| s.spawn(|| guarded(nested_call).unwrap_or_else(|p| Err(format!("panicked: {p}")))).join().unwrap_or_else(|_| Err("panicked on its thread".to_string())));
+            let states = vec![0xdead_0000 | (api as u64) << 8 | rd.calls.min(7)];
+            let violation = match (same, other, &got) {
+                (Err(e), _, _) => Some(Violation { class: "broken-after-reader-panic".into(), detail: format!("after a reader panicked inside read() (call {}), the next hash_stream call on the same thread: {e}", rd.calls) }),
+                (_, Err(e), _) => Some(Violation { class: "broken-after-reader-panic".into(), detail: format!("after a reader panicked inside read() (call {}), the next hash_stream call on another thread: {e}", rd.calls) }),
+                (_, _, Err(p)) if !p.contains("SIM-READER-PANIC") && !(self.lies && rd.lied) => Some(Violation { class: format!("panic:{}", panic_class(p)), detail: format!("panic in hash_stream: {p}") }),
+                (_, _, Ok(_)) => {
+                    st.hit("probe.reader_panic_swallowed");
+                    None
+                }
+                _ => None,
+            };
+            return Outcome { violation, digest: 0x9a1c, nontrivial: true, states };
+        }
         st.add("read_calls", rd.calls);
         st.add("fault.eintr", rd.fired_eintr);
         st.add("fault.hard_error", rd.fired_hard);
@@ -576,6 +604,10 @@ impl Scenario for C12 {
             let at = r.below(script.len() as u64 + 1) as usize;
             script.insert(at, Ev::Nested { other_thread: r.chance(1, 2), k: r.range(1, 5000) as u32 });
         }
+        if sub != 0 && r.chance(1, 16) {
+            let at = r.below(script.len() as u64 + 1) as usize;
+            script.insert(at, Ev::Panic);
+        }
         if self.lies {
             // C17 flavour: some runs carry one lie somewhere (sub 0 stays honest)
             if sub != 0 {
@@ -713,6 +745,7 @@ impl Scenario for C12 {
             .map(|e| match e {
                 Ev::Deliver(k) => format!("Deliver({k})"),
                 Ev::Eintr => "Eintr".to_string(),
+                Ev::Panic => "Panic".to_string(),
                 Ev::Hard(k) => format!("Hard({k})"),
                 Ev::Eof => "Eof".to_string(),
                 Ev::Lie(k) => format!("Lie({k})"),
@@ -736,6 +769,8 @@ impl Scenario for C12 {
                 Ev::Eintr
             } else if s == "Eof" {
                 Ev::Eof
+            } else if s == "Panic" {
+                Ev::Panic
             } else if s.starts_with("Deliver") {
                 Ev::Deliver(arg(s)? as u32)
             } else if s.starts_with("Hard") {
